@@ -13,7 +13,8 @@ VARIABLES hist,
           old      \* the receiver a filter/map left behind (initially an unrelated empty map): derived maps are
                    \* fresh values, so later operations on either map must not show in the other
 
-KeyRankH      == [a |-> 1, b |-> 2, c |-> 3]
+\* the alphabet holds the EMPTY key and the value 0: a key or a value that is the zero value of its type is a key / a value like any other
+KeyRankH      == [k \in {"", "b", "c"} |-> CASE k = "" -> 1 [] k = "b" -> 2 [] OTHER -> 3]
 Asc(a, b)     == KeyRankH[a] < KeyRankH[b]
 Desc(a, b)    == KeyRankH[a] > KeyRankH[b]
 \* a deliberately coarse order (everything equal except c first): exercises stability
@@ -24,9 +25,9 @@ Ops == [op : {"set"}, k : Keys, v : Vals]
        \cup [op : {"sort"}, by : {"asc", "desc", "cfirst"}]
        \cup [op : {"unmarshal"}, doc : 1..Len(Docs)]
        \cup [op : {"filter"}, keep : Vals]     \* m := m.Filter(value = keep)
-       \cup [op : {"map"}, k : Keys]           \* m := m.Map(value of key k flipped 1<->2)
+       \cup [op : {"map"}, k : Keys]           \* m := m.Map(value of key k flipped 0<->3)
        \cup [op : {"oldsort"}]                 \* sort the abandoned receiver (descending)
-       \cup [op : {"oldset"}, k : {"c"}, v : {2}] \* set a key on the abandoned receiver
+       \cup [op : {"oldset"}, k : {"c"}, v : {3}] \* set a key on the abandoned receiver
 
 Flip(v) == 3 - v
 
